@@ -40,9 +40,16 @@ def lintAssignment (lhs : Nat) (rhs : List Expr) : List Diag :=
     else []
   | _, _ => []
 
+/-- the two hooks: (number of targets, values) of an assignment statement -/
+def assignShape : Stmt → Option (Nat × List Expr)
+  | .assign _ vars es => some (vars.toList.length, es.toList)
+  | .localAssign _ names es => some (names.length, es.toList)
+  | _ => none
+
 def collect : Node → List Diag
-  | .stmt (.assign _ vars es) => lintAssignment vars.toList.length es.toList
-  | .stmt (.localAssign _ names es) => lintAssignment names.length es.toList
+  | .stmt s => match assignShape s with
+    | some (lhs, rhs) => lintAssignment lhs rhs
+    | none => []
   | _ => []
 
 def run (b : Block) : List Diag := (nBlock b).flatMap collect
